@@ -70,12 +70,61 @@ func (g *Gen) emitAxioms(skipLemma string) {
 		if a.Lemma && a.Name == skipLemma {
 			break // a lemma may use only what precedes it
 		}
-		f := g.axiomFormula(a, env)
+		f, ok := g.tryAxiomFormula(a, env)
+		if !ok {
+			continue // not expressible in this unit's integer mode (e.g. bit operations in `mode int`): left out, which is sound
+		}
 		g.emit(evAssert, "(assert "+f+")")
 		if !a.Lemma {
 			g.addAssumption("axiom " + a.Name + ": " + a.Src)
 		}
 	}
+}
+
+// tryAxiomFormula: axiomFormula, but an axiom that the current integer mode cannot express is reported as !ok.
+func (g *Gen) tryAxiomFormula(a *Axiom, env *Env) (f string, ok bool) {
+	n := len(g.events)
+	defer func() {
+		if r := recover(); r != nil {
+			if _, isUnsup := r.(unsupportedErr); isUnsup {
+				g.events = g.events[:n]
+				f, ok = "", false
+				return
+			}
+			panic(r)
+		}
+	}()
+	return g.axiomFormula(a, env), true
+}
+
+// RunLemma generates the single obligation of a contract-file lemma: the axioms and lemmas that precede it are
+// available, the lemma's formula (heaps universally quantified) is the goal.
+func (g *Gen) RunLemma(name string) (err error) {
+	defer func() {
+		if r := recover(); r != nil {
+			switch e := r.(type) {
+			case unsupportedErr:
+				err = fmt.Errorf("%s: outside the verified subset: %s", g.unit, string(e))
+			case contractError:
+				err = fmt.Errorf("%s: contract error: %s", g.unit, string(e))
+			default:
+				panic(r)
+			}
+		}
+	}()
+	curPkgName = ""
+	if bp := g.baseEnv().pkg; bp != nil {
+		curPkgName = bp.Name()
+	}
+	g.emitAxioms(name)
+	for _, a := range g.pc.Axioms {
+		if a.Lemma && a.Name == name {
+			f := g.axiomFormula(a, g.baseEnv())
+			g.oblig("lemma", name, f, a.Src, token.NoPos, true)
+			return nil
+		}
+	}
+	return fmt.Errorf("lemma %s not found", name)
 }
 
 // Run generates all events for the function under contract.
@@ -610,6 +659,9 @@ func (g *Gen) loopEnv(li *loopInfo, phiOverride map[string]Val) *Env {
 		env.vars[k] = v
 	}
 	env.resolve = func(name string, h *Heap) (Val, bool) {
+		if name == "rangeiter" {
+			name = "rangeint.iter" // counter of a `for range N` loop (go/ssa's name is not an identifier)
+		}
 		if v, ok := phiOverride[name]; ok {
 			return v, true
 		}
@@ -620,6 +672,9 @@ func (g *Gen) loopEnv(li *loopInfo, phiOverride map[string]Val) *Env {
 
 // resolveLocal finds the value of a source-level local variable as seen at the start of block `at`.
 func (g *Gen) resolveLocal(name string, at *ssa.BasicBlock, h *Heap) (Val, bool) {
+	if name == "rangeiter" {
+		name = "rangeint.iter"
+	}
 	// phi at this block
 	for _, in := range at.Instrs {
 		if phi, ok := in.(*ssa.Phi); ok {
